@@ -57,7 +57,9 @@ type Outcome struct {
 	Counters     map[string]int      `json:"counters,omitempty"`
 	Sample       interface{}         `json:"sample,omitempty"`
 	Witness      interface{}         `json:"witness,omitempty"`
-	Sets         map[string][]string `json:"sets,omitempty"` // named sets whose union is reported (distinct things seen)
+	Sets         map[string][]string `json:"sets,omitempty"`        // named sets whose union is reported (distinct things seen)
+	CPUSeconds   float64             `json:"cpu_seconds,omitempty"` // single-case watchdog: CPU time the child had used when stopped
+	StackTail    string              `json:"stack_tail,omitempty"`  // single-case watchdog: head of the goroutine dump (SIGQUIT)
 }
 
 func (o *Outcome) Count(key string, n int) {
@@ -147,6 +149,11 @@ type Check struct {
 	// again alone in a fresh process is reported as a violation (labelled as wall-clock based); otherwise it is
 	// inconclusive.
 	WatchdogIsViolation bool
+	// HangCPU > 0: a case that hits the watchdog in the worker and, re-run alone in a fresh process, is still running
+	// after having consumed at least this much CPU time (user+system of the child, so machine load does not count) is
+	// a violation "no-termination/cpu-bound@<site>" with the goroutine dump as evidence. Typical cases of such a check
+	// need well under a second of CPU.
+	HangCPU time.Duration
 }
 
 // Aggregate is what the coordinator accumulated.
@@ -468,7 +475,8 @@ func singleInChild(chk *Check, tier string, seed int64, idx int, timeout time.Du
 	errf, _ := ioutil.TempFile("", "vfsingle-err")
 	defer os.Remove(errf.Name())
 	cmd := exec.Command(os.Args[0], "--tier", tier, "--single", strconv.Itoa(idx), "--out", tmp.Name())
-	cmd.Env = append(os.Environ(), "VERIF_SEED="+strconv.FormatInt(seed, 10))
+	// GOTRACEBACK=crash: on SIGQUIT (our watchdog) every thread dumps its stack, also the one that is spinning
+	cmd.Env = append(os.Environ(), "VERIF_SEED="+strconv.FormatInt(seed, 10), "GOTRACEBACK=crash")
 	cmd.Stderr = errf
 	cmd.Stdout = nil
 	done := make(chan error, 1)
@@ -477,9 +485,20 @@ func singleInChild(chk *Check, tier string, seed int64, idx int, timeout time.Du
 	select {
 	case <-done:
 	case <-time.After(timeout):
-		cmd.Process.Kill()
-		<-done
-		return &Outcome{Case: idx, Status: "watchdog", Inconclusive: "single-case watchdog fired"}
+		// ask for a goroutine dump first (SIGQUIT makes the Go runtime print all stacks and exit), then kill
+		cmd.Process.Signal(syscall.SIGQUIT)
+		select {
+		case <-done:
+		case <-time.After(10 * time.Second):
+			cmd.Process.Kill()
+			<-done
+		}
+		cpu := 0.0
+		if ps := cmd.ProcessState; ps != nil {
+			cpu = (ps.UserTime() + ps.SystemTime()).Seconds()
+		}
+		errf.Close()
+		return &Outcome{Case: idx, Status: "watchdog", Inconclusive: "single-case watchdog fired", CPUSeconds: cpu, StackTail: hangStacks(errf.Name())}
 	}
 	errf.Close()
 	b, _ := ioutil.ReadFile(tmp.Name())
@@ -495,6 +514,25 @@ func singleInChild(chk *Check, tier string, seed int64, idx int, timeout time.Du
 		sig = "process-death@" + deathSite(tail)
 	}
 	return &Outcome{Case: idx, Status: "crash", Violations: []Violation{{Sig: sig, Msg: "process died while running this case alone: " + firstLines(tail, 6)}}}
+}
+
+// hangStacks extracts from a SIGQUIT dump the goroutines that were running coca code (the rest is runtime noise).
+func hangStacks(path string) string {
+	b, _ := ioutil.ReadFile(path)
+	var keep []string
+	for _, blk := range strings.Split(string(b), "\n\n") {
+		if strings.Contains(blk, "modernizing/coca/") && strings.HasPrefix(strings.TrimSpace(blk), "goroutine ") {
+			if len(blk) > 3000 {
+				blk = blk[:3000]
+			}
+			keep = append(keep, blk)
+		}
+	}
+	out := strings.Join(keep, "\n\n")
+	if len(out) > 12000 {
+		out = out[:12000]
+	}
+	return out
 }
 
 func deathSite(tail string) string {
@@ -636,6 +674,9 @@ func coordinate(chk *Check, tier string, seed int64, binDir, cocaBin string) int
 						if chk.WatchdogIsViolation {
 							o.Status = "violation"
 							o.Violations = []Violation{{Sig: "no-termination/watchdog", Msg: fmt.Sprintf("case did not return within %s in the worker nor within %s alone in a fresh process (wall-clock based verdict)", chk.watchdog(), 2*chk.watchdog())}}
+						} else if chk.HangCPU > 0 && o.CPUSeconds >= chk.HangCPU.Seconds() {
+							o.Status = "violation"
+							o.Violations = []Violation{{Sig: "no-termination/cpu-bound@" + cocaFrame(o.StackTail), Msg: fmt.Sprintf("case did not return within %s in the worker; alone in a fresh process it was still running after %.0f s of CPU time (typical cases need < 1 s); stacks: %s", chk.watchdog(), o.CPUSeconds, firstLines(o.StackTail, 14))}}
 						}
 					}
 				} else {
